@@ -30,9 +30,9 @@ CLAIMED = {
          "Props/C20.v with the explicit proviso br_off = tile start; harness reads every box of every image the validator accepts (28% of the generated corrupted/edited images) and compares with the FAB whose header names the index range.",
          "offsets pointing at header-shaped text embedded in payload are outside the generated stream and outside the theorem (stated proviso).",
          "DESIGN.md section 3 C20"),
- 'C05': ("Coq proof (per-file straining worker on any FAB list, any box subset/order: output = image of the kept components, offsets = their positions; header count rewrite; variable resolution) + directory-image correspondence of the whole tool model",
-         "Props/C05.v: C05_worker_any_layout, C05_kept_fields_bit_identical, C05_strained_box_wf, C05_header_rewrite, C05_resolve_vars. The executable model Writers.Colander.colander (whole tool: task list per file, offset re-mapping to box order, level-header and global-header rewriting) is compared with the output directory of Colander.strain byte for byte / token for token on generated plotfiles x variable lists x limits; the independent reader decides the property (fields, levels, geometry, bit-identical boxes, min/max rows, taste verdict incl. box coordinates).",
-         "partial proof: offset re-mapping (strain_level) and the text rewriting of Cell_H / Header are in the executable model and tied to the code by correspondence, but the refinement theorem colander (pf_disk pf) = pf_disk (colander_spec pf) is not proved.",
+ 'C05': ("Coq proof of the whole tool (refinement: colander (pf_disk pf) = pf_disk (colander_spec pf) for every well-formed plotfile, layout, variable list and limit; output well-formed) + three-way directory-image correspondence (implementation = tool model = extracted specification)",
+         "Props/C05.v: C05_tool, C05_output_wellformed, C05_level_any_layout, C05_level_header, C05_worker_any_layout, C05_kept_fields_bit_identical, C05_strained_box_wf, C05_header_rewrite, C05_resolve_vars. The executable model Writers.Colander.colander is compared with the output directory of Colander.strain byte for byte / token for token on generated plotfiles x variable lists x limits, and with the image of the extracted specification colander_spec of the abstract plotfile (whose own image is compared with the directory on disk); the independent reader decides the property (fields, levels, geometry, bit-identical boxes, min/max rows, taste verdict incl. box coordinates).",
+         "the case where no requested field exists is outside the specification (model = implementation only); text model restrictions of C02; float tokens compared by value.",
          "DESIGN.md section 3 C05"),
  'C08': ("Coq proof (byte-level box read, expand_array = cell replication, level-ordered painting = finest covering level, totality, order-freedom) + bit-for-bit correspondence and independent covering-grid oracle",
          "Props/C08.v: C08_covering (pixel (x,y) of every returned field = stored word of the cell of the finest selected level with a box over it; grid_level = that level) for every list of well-formed 2D levels in any file layout, every limit and field list; C08_succeeds, C08_total (no uninitialised pixel), C08_expand, C08_box_read, C08_order_free. Extracted Mandoline.Plate.plate compared bit for bit with Mandoline(...).slice(fformat='return') and an independent numpy covering grid on generated 2D plotfiles.",
@@ -63,8 +63,8 @@ CLAIMED = {
          "partial: the checkpoint Header parse, dx = domain / grid, box bounds and the text writers are checked at property level only (not modelled); flooring division is numpy's (table); two defects repaired by fix: commits, see KNOWN_FINDINGS.txt.",
          "DESIGN.md section 3 C17"),
  'C14': ("Coq proof (induction lifting per-operation preservation/refinement to every finite pipeline and every intermediate state; strain-all identity; cook-then-combine identity on box contents) + hop-by-hop correspondence of the composed extracted models with the real tool chain",
-         "Props/C14.v: C14_pipeline, C14_strain_all_identity, C14_cook_combine. Pipelines over {colander, chef, combine with sibling, combine with ancestor} (all sequences of length <= 2 over the kinds, sampled up to 4) are run on generated plotfiles; after every hop the output is parsed by the independent reader and compared with the composed pure numpy operations, validated by taste (with and without box coordinates), and compared byte for byte with the composition of the extracted Writers.* models.",
-         "the per-operation hypotheses of C14_pipeline (each tool preserves well-formedness and refines its pure operation) are proved only for the binary cores (C05/C06/C11) and otherwise established by correspondence; chk2plt as a source is covered by C17.",
+         "Props/C14.v: C14_pipeline, C14_colander_chain (hypotheses discharged for every sequence of colander runs: succeeds, equals the composed specifications, every intermediate directory is a good plotfile), C14_colander_outputs_accepted (taste accepts them), C14_strain_all_identity, C14_cook_combine. Pipelines over {colander, chef, combine with sibling, combine with ancestor} (all sequences of length <= 2 over the kinds, sampled up to 4) are run on generated plotfiles; after every hop the output is parsed by the independent reader and compared with the composed pure numpy operations, validated by taste (with and without box coordinates), and compared byte for byte with the composition of the extracted Writers.* models.",
+         "the per-operation hypotheses of C14_pipeline are proved at tool level for colander; for chef and combine only for the binary cores (C06/C11), otherwise established by correspondence; chk2plt as a source is covered by C17.",
          "DESIGN.md section 3 C14"),
  'C12': ("Coq proof (ordered map/imap pairing is independent of the execution order; file-system confluence of tasks touching disjoint files for every execution order; order-free keyed painting) + exhaustive task-order runs of every tool under a controlled pool with audited task file sets",
          "Props/C12.v: C12_ordered_pairing, C12_unordered_needs_keys, C12_fs_confluence, C12_painting_order_free. 13 tool scenarios (reader selections / iteration, taste, colander, combine x3 modes, chef, mandoline 2D / 3D, pestle, whip, chk2plt) are run under the submission order and 27 other task orders (all 24 orders of every pool call with <= 4 tasks, reverse, random), and in serial mode where it exists; returned values and the sha256 of every output file must equal the baseline; every task's open() calls are audited and the independence hypothesis of the confluence theorem is checked on every pool call; thorough tier adds real process pools with 1, 2, 16 workers.",
